@@ -37,24 +37,24 @@ fn ev(e: &Expression, k: usize) -> Expression {
     }
 }
 
-/// value-normaliser: every expression replaced by its value at generic point k
-fn norm(i: &Instruction, k: usize) -> Instruction {
+/// copy of `i` with every expression (also inside definition bodies) replaced by `f(expression)`
+fn map_exprs(i: &Instruction, f: &mut dyn FnMut(&Expression) -> Expression) -> Instruction {
     let mut j = i.clone();
-    j.apply_to_expressions(|e| *e = ev(e, k));
+    j.apply_to_expressions(|e| *e = f(e));
     match &mut j {
         Instruction::CalibrationDefinition(c) => {
-            c.instructions = c.instructions.iter().map(|x| norm(x, k)).collect();
+            c.instructions = c.instructions.iter().map(|x| map_exprs(x, f)).collect();
         }
         Instruction::MeasureCalibrationDefinition(c) => {
-            c.instructions = c.instructions.iter().map(|x| norm(x, k)).collect();
+            c.instructions = c.instructions.iter().map(|x| map_exprs(x, f)).collect();
         }
         Instruction::CircuitDefinition(c) => {
-            c.instructions = c.instructions.iter().map(|x| norm(x, k)).collect();
+            c.instructions = c.instructions.iter().map(|x| map_exprs(x, f)).collect();
         }
         Instruction::GateDefinition(g) => {
             if let GateSpecification::PauliSum(ps) = &mut g.specification {
                 for t in ps.terms.iter_mut() {
-                    t.expression = ev(&t.expression, k);
+                    t.expression = f(&t.expression);
                 }
             }
         }
@@ -68,6 +68,11 @@ fn norm(i: &Instruction, k: usize) -> Instruction {
         _ => {}
     }
     j
+}
+
+/// value-normaliser: every expression replaced by its value at generic point k
+fn norm(i: &Instruction, k: usize) -> Instruction {
+    map_exprs(i, &mut |e| ev(e, k))
 }
 
 fn num(r: f64, i: f64) -> Expression {
@@ -127,11 +132,67 @@ fn exprs(tier: Tier) -> Vec<Expression> {
     v
 }
 
-/// single well-formed, placeholder-free instructions: (site, instruction)
-fn singles(tier: Tier) -> Vec<(String, Instruction)> {
+/// every expression-bearing position the constructors offer, filled with `e`
+fn expr_sites(e: &Expression, only: Option<&[&str]>) -> Vec<(String, Instruction)> {
+    let mut insts: Vec<(String, Instruction)> = vec![];
+    macro_rules! site {
+        ($name:expr, $inst:expr $(,)?) => {
+            let n: String = $name;
+            if only.map_or(true, |o| o.contains(&n.as_str())) {
+                insts.push((n, $inst));
+            }
+        };
+    }
     let q0 = Qubit::Fixed(0);
     let q1 = Qubit::Fixed(1);
     let qv = Qubit::Variable("q".into());
+    for names in [vec![], vec!["rf".to_string()], vec!["rf".to_string(), "x y".to_string()]] {
+        for qs in [vec![], vec![q0.clone()], vec![q0.clone(), q1.clone()], vec![qv.clone()]] {
+            site!(format!("Delay(names={},qubits={}{})", names.len(), qs.len(), if qs.iter().any(|q| matches!(q, Qubit::Variable(_))) { "v" } else { "" }), Instruction::Delay(Delay::new(e.clone(), names.clone(), qs.clone())));
+        }
+    }
+    site!("Gate.param".into(), Instruction::Gate(Gate::new("RX", vec![e.clone()], vec![q0.clone()], vec![]).unwrap()));
+    site!("Gate.param2.modifiers".into(), Instruction::Gate(Gate::new("G", vec![num(1.0, 0.0), e.clone()], vec![q0.clone(), q1.clone(), qv.clone()], vec![GateModifier::Controlled, GateModifier::Dagger]).unwrap()));
+    site!("SetPhase".into(), Instruction::SetPhase(SetPhase::new(fr("rf", vec![q0.clone()]), e.clone())));
+    site!("SetScale".into(), Instruction::SetScale(SetScale::new(fr("rf", vec![q0.clone()]), e.clone())));
+    site!("SetFrequency".into(), Instruction::SetFrequency(SetFrequency::new(fr("rf", vec![q0.clone(), q1.clone()]), e.clone())));
+    site!("ShiftPhase".into(), Instruction::ShiftPhase(ShiftPhase::new(fr("rf", vec![qv.clone()]), e.clone())));
+    site!("ShiftFrequency".into(), Instruction::ShiftFrequency(ShiftFrequency::new(fr("rf", vec![q0.clone()]), e.clone())));
+    site!("RawCapture".into(), Instruction::RawCapture(RawCapture::new(false, fr("rf", vec![q0.clone()]), e.clone(), mref("a", 1))));
+    site!(
+        "Pulse.wfparam".into(),
+        Instruction::Pulse(Pulse::new(true, fr("rf", vec![q0.clone(), q1.clone()]), WaveformInvocation::new("w".into(), [("a".to_string(), num(1.0, 0.0)), ("b".to_string(), e.clone())].into_iter().collect()))),
+    );
+    site!("Capture.wfparam".into(), Instruction::Capture(Capture::new(false, fr("ro", vec![q0.clone()]), mref("a", 0), WaveformInvocation::new("w/x".into(), [("b".to_string(), e.clone())].into_iter().collect()))));
+    site!(
+        "DefFrame.attr".into(),
+        Instruction::FrameDefinition(FrameDefinition::new(fr("rf", vec![q0.clone()]), [("K".to_string(), AttributeValue::Expression(e.clone())), ("S".to_string(), AttributeValue::String("s".into()))].into_iter().collect())),
+    );
+    site!("DefWaveform".into(), Instruction::WaveformDefinition(WaveformDefinition::new("w".into(), Waveform::new(vec![e.clone(), num(1.0, 0.0)], vec!["t".into()]))));
+    site!(
+        "DefCal.body".into(),
+        Instruction::CalibrationDefinition(CalibrationDefinition::new(
+            CalibrationIdentifier::new("X".into(), vec![GateModifier::Dagger], vec![e.clone()], vec![qv.clone()]).unwrap(),
+            vec![Instruction::Delay(Delay::new(e.clone(), vec![], vec![qv.clone()])), Instruction::Gate(Gate::new("RZ", vec![e.clone()], vec![qv.clone()], vec![]).unwrap())],
+        )),
+    );
+    site!(
+        "DefMeasureCal.body".into(),
+        Instruction::MeasureCalibrationDefinition(MeasureCalibrationDefinition::new(
+            MeasureCalibrationIdentifier::new(None, qv.clone(), Some("dest".into())),
+            vec![Instruction::SetPhase(SetPhase::new(fr("ro", vec![qv.clone()]), e.clone()))],
+        )),
+    );
+    site!(
+        "DefCircuit.body".into(),
+        Instruction::CircuitDefinition(CircuitDefinition::new("C".into(), vec!["t".into()], vec!["q".into()], vec![Instruction::Gate(Gate::new("RX", vec![e.clone()], vec![qv.clone()], vec![]).unwrap()), Instruction::Delay(Delay::new(e.clone(), vec![], vec![qv.clone()]))])),
+    );
+    site!("DefGate.matrix".into(), Instruction::GateDefinition(GateDefinition::new("G".into(), vec!["t".into()], GateSpecification::Matrix(vec![vec![e.clone(), num(0.0, 0.0)], vec![num(0.0, 0.0), num(1.0, 0.0)]])).unwrap()));
+    insts
+}
+
+/// single well-formed, placeholder-free instructions: (site, instruction)
+fn singles(tier: Tier) -> Vec<(String, Instruction)> {
     let mut insts: Vec<(String, Instruction)> = vec![];
     let reals: &[f64] = if tier == Tier::Quick { &[1.0, -2.0, 1e21, 1e-7, 2.5, 0.0] } else { &[1.0, -2.0, 1e21, 1e-7, 2.5, 0.0, -0.0, 1e15, 1e16, 1e17, 123456.789, 5e-324, 1.7976931348623157e308, -1e-300, 0.1, 1.0 / 3.0] };
     for &r in reals {
@@ -150,48 +211,7 @@ fn singles(tier: Tier) -> Vec<(String, Instruction)> {
         insts.push(("Store.int".into(), Instruction::Store(Store::new("a".into(), mref("b", 0), ArithmeticOperand::LiteralInteger(v)))));
     }
     for e in &exprs(tier) {
-        for names in [vec![], vec!["rf".to_string()], vec!["rf".to_string(), "x y".to_string()]] {
-            for qs in [vec![], vec![q0.clone()], vec![q0.clone(), q1.clone()], vec![qv.clone()]] {
-                insts.push((format!("Delay(names={},qubits={})", names.len(), qs.len()), Instruction::Delay(Delay::new(e.clone(), names.clone(), qs.clone()))));
-            }
-        }
-        insts.push(("Gate.param".into(), Instruction::Gate(Gate::new("RX", vec![e.clone()], vec![q0.clone()], vec![]).unwrap())));
-        insts.push(("Gate.param2.modifiers".into(), Instruction::Gate(Gate::new("G", vec![num(1.0, 0.0), e.clone()], vec![q0.clone(), q1.clone(), qv.clone()], vec![GateModifier::Controlled, GateModifier::Dagger]).unwrap())));
-        insts.push(("SetPhase".into(), Instruction::SetPhase(SetPhase::new(fr("rf", vec![q0.clone()]), e.clone()))));
-        insts.push(("SetScale".into(), Instruction::SetScale(SetScale::new(fr("rf", vec![q0.clone()]), e.clone()))));
-        insts.push(("SetFrequency".into(), Instruction::SetFrequency(SetFrequency::new(fr("rf", vec![q0.clone(), q1.clone()]), e.clone()))));
-        insts.push(("ShiftPhase".into(), Instruction::ShiftPhase(ShiftPhase::new(fr("rf", vec![qv.clone()]), e.clone()))));
-        insts.push(("ShiftFrequency".into(), Instruction::ShiftFrequency(ShiftFrequency::new(fr("rf", vec![q0.clone()]), e.clone()))));
-        insts.push(("RawCapture".into(), Instruction::RawCapture(RawCapture::new(false, fr("rf", vec![q0.clone()]), e.clone(), mref("a", 1)))));
-        insts.push((
-            "Pulse.wfparam".into(),
-            Instruction::Pulse(Pulse::new(true, fr("rf", vec![q0.clone(), q1.clone()]), WaveformInvocation::new("w".into(), [("b".to_string(), e.clone()), ("a".to_string(), num(1.0, 0.0))].into_iter().collect()))),
-        ));
-        insts.push(("Capture.wfparam".into(), Instruction::Capture(Capture::new(false, fr("ro", vec![q0.clone()]), mref("a", 0), WaveformInvocation::new("w/x".into(), [("b".to_string(), e.clone())].into_iter().collect())))));
-        insts.push((
-            "DefFrame.attr".into(),
-            Instruction::FrameDefinition(FrameDefinition::new(fr("rf", vec![q0.clone()]), [("K".to_string(), AttributeValue::Expression(e.clone())), ("S".to_string(), AttributeValue::String("s".into()))].into_iter().collect())),
-        ));
-        insts.push(("DefWaveform".into(), Instruction::WaveformDefinition(WaveformDefinition::new("w".into(), Waveform::new(vec![e.clone(), num(1.0, 0.0)], vec!["t".into()])))));
-        insts.push((
-            "DefCal.body".into(),
-            Instruction::CalibrationDefinition(CalibrationDefinition::new(
-                CalibrationIdentifier::new("X".into(), vec![GateModifier::Dagger], vec![e.clone()], vec![qv.clone()]).unwrap(),
-                vec![Instruction::Delay(Delay::new(e.clone(), vec![], vec![qv.clone()])), Instruction::Gate(Gate::new("RZ", vec![e.clone()], vec![qv.clone()], vec![]).unwrap())],
-            )),
-        ));
-        insts.push((
-            "DefMeasureCal.body".into(),
-            Instruction::MeasureCalibrationDefinition(MeasureCalibrationDefinition::new(
-                MeasureCalibrationIdentifier::new(None, qv.clone(), Some("dest".into())),
-                vec![Instruction::SetPhase(SetPhase::new(fr("ro", vec![qv.clone()]), e.clone()))],
-            )),
-        ));
-        insts.push((
-            "DefCircuit.body".into(),
-            Instruction::CircuitDefinition(CircuitDefinition::new("C".into(), vec!["t".into()], vec!["q".into()], vec![Instruction::Gate(Gate::new("RX", vec![e.clone()], vec![qv.clone()], vec![]).unwrap()), Instruction::Delay(Delay::new(e.clone(), vec![], vec![qv.clone()]))])),
-        ));
-        insts.push(("DefGate.matrix".into(), Instruction::GateDefinition(GateDefinition::new("G".into(), vec!["t".into()], GateSpecification::Matrix(vec![vec![e.clone(), num(0.0, 0.0)], vec![num(0.0, 0.0), num(1.0, 0.0)]])).unwrap())));
+        insts.extend(expr_sites(e, None));
     }
     for a in [
         UnresolvedCallArgument::Identifier("a".into()),
@@ -328,6 +348,134 @@ fn check_program(insts: &[&Instruction]) -> Vec<(String, String)> {
     }
 }
 
+
+/// guarded value comparison of two expression lists at the generic and special points of `ex`
+fn exprs_agree(ea: &[Expression], eb: &[Expression]) -> Result<(), String> {
+    use crate::ex::{gev, points, Ex};
+    if ea.len() != eb.len() {
+        return Err(format!("{} expressions came back as {}", ea.len(), eb.len()));
+    }
+    thread_local! {
+        static PTS: Vec<(crate::ex::Vars, crate::ex::Memo)> = {
+            let mut p = points();
+            let mk = |x: f64, y: f64, a: [f64; 2], b: [f64; 2]| -> (crate::ex::Vars, crate::ex::Memo) {
+                ([("x".to_string(), C::new(x, 0.0)), ("y".to_string(), C::new(y, 0.0))].into(), [("a".to_string(), a.to_vec()), ("b".to_string(), b.to_vec())].into())
+            };
+            p.push(mk(0.0, 0.0, [0.0, 0.0], [0.0, 0.0]));
+            p.push(mk(2.5, -1.0, [-1.0, 2.5], [2.5, 0.0]));
+            p
+        };
+    }
+    for (a, b) in ea.iter().zip(eb.iter()) {
+        if a == b {
+            continue;
+        }
+        let (xa, xb) = (Ex::from_expr(a), Ex::from_expr(b));
+        let r = PTS.with(|pts| {
+            for (v, m) in pts {
+                if gev(&xa, v, m).is_none() || gev(&xb, v, m).is_none() {
+                    continue;
+                }
+                match (a.evaluate(v, m), b.evaluate(v, m)) {
+                    (Ok(za), Ok(zb)) => {
+                        if za.is_finite() && !((za - zb).norm() <= 1e-12 * (1.0 + za.norm())) {
+                            return Err(format!("{} came back as {} ({za} vs {zb})", xa.show(), xb.show()));
+                        }
+                    }
+                    (Ok(_), Err(_)) => return Err(format!("{} came back as {}, which does not evaluate", xa.show(), xb.show())),
+                    _ => {}
+                }
+            }
+            Ok(())
+        });
+        r?;
+    }
+    Ok(())
+}
+
+/// round trip of one built instruction whose expressions come from the exhaustive tree space:
+/// skeleton (everything but the expressions) must be equal, expressions equal by guarded value
+fn check_site(i: &Instruction) -> Vec<(String, String)> {
+    let r = catch(|| {
+        let p = Program::from_instructions(vec![i.clone()]);
+        let txt = match p.to_quil() {
+            Ok(t) => t,
+            Err(e) => return vec![("serialize".to_string(), format!("to_quil failed without a placeholder: {e:?}"))],
+        };
+        match Program::from_str(&txt) {
+            Err(_) => vec![("reparse".to_string(), format!("text {txt:?} does not parse"))],
+            Ok(p2) => {
+                let a = p.to_instructions();
+                let b = p2.to_instructions();
+                if a.len() != b.len() {
+                    return vec![("not-equivalent".to_string(), format!("text {txt:?} parses to {} instructions instead of {}", b.len(), a.len()))];
+                }
+                for (x, y) in a.iter().zip(b.iter()) {
+                    let (mut ea, mut eb) = (vec![], vec![]);
+                    let zero = || Expression::Number(C::new(0.0, 0.0));
+                    let sx = map_exprs(x, &mut |e| {
+                        ea.push(e.clone());
+                        zero()
+                    });
+                    let sy = map_exprs(y, &mut |e| {
+                        eb.push(e.clone());
+                        zero()
+                    });
+                    if sx != sy {
+                        return vec![("not-equivalent".to_string(), format!("text {txt:?} parses back to `{}`", y.to_quil_or_debug()))];
+                    }
+                    if let Err(d) = exprs_agree(&ea, &eb) {
+                        return vec![("not-equivalent".to_string(), format!("text {txt:?}: {d}"))];
+                    }
+                }
+                vec![]
+            }
+        }
+    });
+    match r {
+        Ok(v) => v,
+        Err(p) => vec![("panic".into(), p)],
+    }
+}
+
+/// sites visited for every tree of depth 2 (quick: the first 3; thorough: all)
+const DEEP_SITES: &[&str] = &["Delay(names=0,qubits=1)", "Pulse.wfparam", "DefGate.matrix", "Delay(names=0,qubits=0)", "Gate.param", "DefFrame.attr", "DefWaveform", "DefCal.body"];
+
+fn site_names() -> &'static [String] {
+    static NAMES: std::sync::OnceLock<Vec<String>> = std::sync::OnceLock::new();
+    NAMES.get_or_init(|| expr_sites(&num(1.0, 0.0), None).into_iter().map(|(n, _)| n).collect())
+}
+
+fn site_case(ctx: &mut Ctx, ex: &crate::ex::Ex, only: Option<&[&str]>, shrinks: &mut usize) {
+    let e = ex.to_expr();
+    for site in site_names() {
+        if let Some(o) = only {
+            if !o.contains(&site.as_str()) {
+                continue;
+            }
+        }
+        if !ctx.take(|| json!({"list": "expr-site", "site": site, "expr": ex})) {
+            continue;
+        }
+        let build = |e: &Expression| expr_sites(e, Some(&[site.as_str()])).pop().map(|(_, i)| i);
+        let Some(i) = build(&e) else { continue };
+        ctx.nontrivial(&(site, ex.show()));
+        let vs = check_site(&i);
+        ctx.outcome(if vs.is_empty() { "site:roundtrips" } else { "site:fails" });
+        for (clause, detail) in vs {
+            let fails = |c: &crate::ex::Ex| build(&c.to_expr()).map(|i| check_site(&i).iter().any(|(cl, _)| *cl == clause)).unwrap_or(false);
+            let fp = if *shrinks < 400 {
+                *shrinks += 1;
+                let small = crate::ex::shrink(ex.clone(), &fails);
+                format!("C04:{clause}:{site}:{}", small.normalised().show())
+            } else {
+                format!("C04:{clause}:{site}:(unshrunk)")
+            };
+            ctx.report(viol(&clause, fp, json!({"list": "expr-site", "site": site, "expr": ex}), format!("{}: {detail}", i.to_quil_or_debug())));
+        }
+    }
+}
+
 fn check_placeholder(has: bool, i: &Instruction) -> Vec<(String, String)> {
     let mut out = vec![];
     match catch(|| i.to_quil()) {
@@ -366,7 +514,7 @@ pub static C04: PropDef = PropDef {
     id: "C04",
     level: "exploration",
     engine: "sweep",
-    rule: "instructions built with the public constructors: literal reals/integers (incl. -2.0, 1e21, 1e-7, i64::MIN/MAX) in every classical operand kind, 15 (thorough 33) expressions (negative and complex numbers, nested negation, variables, references) in DELAY x {0,1,2 frame names} x {0,1,2 fixed, variable qubits}, gate parameters, SET-*/SHIFT-*, RAW-CAPTURE, waveform parameters, frame attributes, DEFWAVEFORM, DEFCAL / DEFCAL MEASURE / DEFCIRCUIT bodies, DEFGATE matrices; CALL with every immediate form; one form of every other instruction; all single instructions and all ordered pairs over a reduced list; 42 placeholder / placeholder-free twins. non-trivial = instruction containing an expression or literal (distinct by debug text)",
+    rule: "instructions built with the public constructors: literal reals/integers (incl. -2.0, 1e21, 1e-7, i64::MIN/MAX) in every classical operand kind, 15 (thorough 33) expressions (negative and complex numbers, nested negation, variables, references) in DELAY x {0,1,2 frame names} x {0,1,2 fixed, variable qubits}, gate parameters, SET-*/SHIFT-*, RAW-CAPTURE, waveform parameters, frame attributes, DEFWAVEFORM, DEFCAL / DEFCAL MEASURE / DEFCIRCUIT bodies, DEFGATE matrices; CALL with every immediate form; one form of every other instruction; all single instructions and all ordered pairs over a reduced list; every expression tree of depth <= 1 of the C03 alphabet (693) at every one of the 30 expression-bearing sites, and every tree of depth 2 (2.4 M) at 3 (thorough 8) sites, compared by skeleton equality plus guarded value equality of each expression; 42 placeholder / placeholder-free twins. non-trivial = instruction containing an expression or literal (distinct by debug text)",
     assumptions: &["equivalence = == after replacing every expression by its value at two generic points rounded to 12 significant digits (DESIGN §4 C04)"],
     run: |ctx| {
         let s = singles(ctx.tier);
@@ -399,6 +547,20 @@ pub static C04: PropDef = PropDef {
                 }
             }
         }
+        // every expression tree of depth <= 1 at every expression-bearing site; every tree of depth 2 at
+        // the sites where the printed form is most context-sensitive
+        let sp = crate::ex::Space::full();
+        let mut shrinks = 0usize;
+        ctx.bound("expression_trees_depth_le_1", json!(sp.all1.len()));
+        for ex in &sp.all1 {
+            site_case(ctx, ex, None, &mut shrinks);
+        }
+        let deep = &DEEP_SITES[..ctx.tier.pick(3, DEEP_SITES.len())];
+        ctx.bound("depth2_sites", json!(deep));
+        sp.depth2(|d| {
+            let ex = sp.build(&d);
+            site_case(ctx, &ex, Some(deep), &mut shrinks);
+        });
         let ph = placeholders();
         for (k, (has, i)) in ph.iter().enumerate() {
             if !ctx.take(|| json!({"list": "placeholder", "index": k, "has_placeholder": has})) {
@@ -430,6 +592,14 @@ pub static C04: PropDef = PropDef {
                     let b = c["index"][1].as_u64().unwrap_or(0) as usize;
                     if let (Some(x), Some(y)) = (s.get(a), s.get(b)) {
                         out.extend(check_program(&[&x.1, &y.1]).into_iter().map(|(cl, d)| viol(&cl, format!("C04:pair:{cl}:{}+{}", x.0, y.0), c.clone(), d)));
+                    }
+                }
+                Some("expr-site") => {
+                    if let Ok(ex) = serde_json::from_value::<crate::ex::Ex>(c["expr"].clone()) {
+                        let name = c["site"].as_str().unwrap_or("");
+                        if let Some((site, i)) = expr_sites(&ex.to_expr(), Some(&[name])).first() {
+                            out.extend(check_site(i).into_iter().map(|(cl, d)| viol(&cl, format!("C04:{cl}:{site}:replay"), c.clone(), d)));
+                        }
                     }
                 }
                 Some("placeholder") => {
